@@ -38,7 +38,7 @@ NMeanSeq(q) == CHOOSE x \in STRING : TRUE      \* arithmetic mean of a non-empty
 NPopStdSeq(q) == CHOOSE x \in STRING : TRUE    \* population standard deviation of a non-empty sequence
 NPrefixSeq(q) == CHOOSE x \in Seq(STRING) : TRUE \* sequence of prefix sums, same length as q
 NPopVarSeq(q) == CHOOSE x \in STRING : TRUE    \* population variance of a non-empty sequence
-NRound(a, n) == CHOOSE x \in STRING : TRUE     \* a rounded (half-even on its exact value) to n decimals
+NRound(a, n) == CHOOSE x \in STRING : TRUE     \* a rounded to n decimals as numpy rounds: rint(a * 10^n) / 10^n
 NSign(a)    == CHOOSE x \in {-1, 0, 1, 2} : TRUE \* exact sign; 2 for NaN
 
 (* outcome sets: which truth values of the comparison must a specification admit *)
